@@ -197,39 +197,50 @@ class Sweep(object):
         return '%s:%d' % (self.f.module.rel, n.line if hasattr(n, 'line') else getattr(n, 'lineno', 0))
 
 
+def _outermost(cands):
+    """drop candidates that are private helpers inlined into another candidate (they are judged at their callers)"""
+    keys = {c.key for c in cands}
+    out = []
+    for c in cands:
+        if any(c.key in getattr(o, 'inlined', ()) for o in cands if o.key != c.key):
+            continue
+        if c.key not in [x.key for x in out]:
+            out.append(c)
+    return out
+
+
 def solver_function(prog, role):
-    """other solver anchors by role"""
+    """other solver anchors by role; the role is recognised on functions with their private helpers inlined"""
+    funcs = [f for f in prog.all_functions() if '/deprecated/' not in f.module.rel]
     if role == 'initial_conditions':
         # the function that evals entries of .InitialConditions and of .Exogenous
-        out = []
-        for f in prog.all_functions():
-            if '/deprecated/' in f.module.rel:
-                continue
+        def pred(f):
             src_ic = any(isinstance(n, ast.Attribute) and n.attr == 'InitialConditions' for n in ast.walk(f.node))
-            if src_ic and eval_calls(f.node):
-                out.append(f)
+            return src_ic and bool(eval_calls(f.node))
+        out = [f for f in funcs if pred(f)]
+        if len(out) != 1:
+            out = _outermost([fl for fl in (flatten(prog, f) for f in funcs) if pred(fl)])
         if len(out) != 1:
             raise AnalysisError('expected one initial-conditions function, found %s' % [f.qualname for f in out])
         return out[0]
     if role == 'solve_all':
         # the function looping range(1, <..>.MaxTime + 1) and calling the step function
-        out = []
-        for f in prog.all_functions():
-            if '/deprecated/' in f.module.rel or '/gl_book/' in f.module.rel:
-                continue
+        def pred(f):
+            if '/gl_book/' in f.module.rel:
+                return False
             for n in ast.walk(f.node):
                 if isinstance(n, ast.For) and isinstance(n.iter, ast.Call) and call_name(n.iter) == 'range' and \
                         any(isinstance(x, ast.Attribute) and x.attr == 'MaxTime' for x in ast.walk(n.iter)):
-                    if f not in out:
-                        out.append(f)
+                    return True
+            return False
+        out = [f for f in funcs if pred(f)]
+        if len(out) != 1:
+            out = _outermost([fl for fl in (flatten(prog, f) for f in funcs) if pred(fl)])
         if len(out) != 1:
             raise AnalysisError('expected one solve-all function (range over MaxTime), found %s' % [f.qualname for f in out])
         return out[0]
     if role == 'steady_state':
-        out = []
-        for f in prog.all_functions():
-            if '/deprecated/' in f.module.rel:
-                continue
+        def pred(f):
             has_copy = any(isinstance(n, ast.Call) and call_name(n) in ('deepcopy', '_GetCopy', 'copy')
                            for n in ast.walk(f.node))
             last_two = 0
@@ -237,8 +248,10 @@ def solver_function(prog, role):
                 if isinstance(n, ast.Subscript) and isinstance(n.slice, ast.UnaryOp) and isinstance(n.slice.op, ast.USub) \
                         and isinstance(n.slice.operand, ast.Constant) and n.slice.operand.value in (1, 2):
                     last_two += 1
-            if has_copy and last_two >= 2:
-                out.append(f)
+            return has_copy and last_two >= 2
+        out = [f for f in funcs if pred(f)]
+        if len(out) != 1:
+            out = _outermost([fl for fl in (flatten(prog, f) for f in funcs) if pred(fl)])
         if len(out) != 1:
             raise AnalysisError('expected one steady-state search function, found %s' % [f.qualname for f in out])
         return out[0]
